@@ -258,3 +258,36 @@ func (m *idlModel) funcs() []*ssa.Function {
 	}
 	return out
 }
+
+// inputField: the name of the cursor's input member (found by shape in cursor.go: the string member indexed by the
+// position member).
+func (m *idlModel) inputField() string {
+	if st, ok := m.a.cursorT.Underlying().(*types.Struct); ok && m.a.inIdx >= 0 && m.a.inIdx < st.NumFields() {
+		return st.Field(m.a.inIdx).Name()
+	}
+	return "input"
+}
+
+// accMethod: c is a call of a method of the pending-comment accumulator - a member of the cursor of type bytes.Buffer or
+// strings.Builder; returns the method name ("" otherwise). The member is found by type, not by name.
+func (m *idlModel) accMethod(c *ssa.Call) string {
+	f := c.Call.StaticCallee()
+	if f == nil || f.Signature.Recv() == nil || len(c.Call.Args) == 0 {
+		return ""
+	}
+	rt := f.Signature.Recv().Type()
+	if !isNamed(rt, "bytes", "Buffer") && !isNamed(rt, "strings", "Builder") {
+		return ""
+	}
+	// receiver: address of a member of the cursor
+	v := c.Call.Args[0]
+	fa, ok := v.(*ssa.FieldAddr)
+	if !ok {
+		return ""
+	}
+	pt, ok := fa.X.Type().Underlying().(*types.Pointer)
+	if !ok || !types.Identical(pt.Elem(), m.a.cursorT) {
+		return ""
+	}
+	return f.Name()
+}
